@@ -175,11 +175,12 @@ def discover_writer(tsrc):
 def run(tier, seed, only=None):
     rep = Report("C18", tier, seed, "other",
                  "Kernel-level partial claim about the JSON target: (1) JsonGenerator::transpile_expr hands every constant value - a literal's value, the value "
-                 "bound to a name, a folded constant expression - to one value-to-JSON writer (decided on the function's rustc MIR, engine mirsem); (2) that writer, "
-                 "model-checked with Kani/CBMC over the real crate, writes None as null, booleans as true/false, every string (per UTF-8 width pattern, every code "
-                 "point of each class) as one RFC 8259 string literal that decodes to the same string, and lists/tuples of such scalars as JSON arrays.  The "
-                 "structural arms of transpile_expr (list/tuple/record/dict displays, the comma logic of transpile), number formatting (Rust's integer/float Display) "
-                 "and the front end are not decided.", partial=bool(only))
+                 "bound to a name, a folded constant expression - to one value-to-JSON writer (decided on the function's rustc MIR, engine mirsem); (2) that writer "
+                 "writes None as null and booleans as true/false (Kani/CBMC over the real crate) and calls one string kernel for Str values; (3) the string kernel, "
+                 "executed on its MIR with a model of String building for strings of k characters (every Unicode scalar value for each character), writes exactly one "
+                 "RFC 8259 string literal that a reference decoder maps back to the input; (4) the list / tuple / record / dict arms, transpile_def and transpile write, "
+                 "for n opaque element texts that are JSON values by the induction hypothesis, the JSON array / object of those texts in order.  Number formatting "
+                 "(Rust's integer/float Display), containers as values and the front end are not decided.", partial=bool(only))
     s = Scratch("c18")
     try:
         tsrc = s.read("crates/erg_compiler/transpile.rs")
@@ -202,6 +203,10 @@ def run(tier, seed, only=None):
                     rep.add_function(callee, "crates/erg_compiler/transpile.rs", extract_fn(tsrc, callee))
             import c18_str
             c18_str.stage(rep, s, tsrc, F, tier, only, text=text)
+            import c18_struct
+            stv = c18_struct.stage(rep, s, tsrc, tier, only, text, F=F) or []
+            if stv:
+                exe = c18_flow.e2e_struct(s, stv, exe)
             kk = KaniRun(s, "erg_compiler", "crates/erg_compiler", tier, workers=2, mem_gb=12, cap=300 if tier == "quick" else 1500)
             hs = [h_scalars(F)]
             for h in hs:
@@ -223,8 +228,9 @@ def run(tier, seed, only=None):
         rep.assumptions += [
             "strings longer than the listed width patterns are outside the claim (the writer handles one character at a time; no state is carried between characters)",
             "number formatting is Rust's Display for u64/i32/f64 (decimal; finite floats) - trusted, not decided; Inf/NaN have no JSON notation",
-            "records and dicts as values (hash-map iteration) and nesting deeper than a list of scalars are outside the model-checked shapes",
-            "the structural arms of transpile_expr and JsonGenerator::transpile (brackets, commas, key quoting) are outside the claim",
+            "containers as *values* (a name bound to a list / record / dict: the recursive arms of the writer) are outside the decided shapes",
+            "structure: containers of n <= 2 (thorough 3) elements; the text of a sub-expression is a JSON value by the induction hypothesis; record keys are identifiers (no escaping needed); every binding is public (each chunk's text is non-empty)",
+            "models: String::push / push_str / += / with_capacity / len, str::chars, Chars::next, Vec::into_iter / enumerate / next, format! with `{}` placeholders (template bytes read from the MIR constant)",
         ]
         return rep.finish()
     finally:
